@@ -45,7 +45,13 @@ type batchOp struct {
 }
 
 // batchPool pre-builds, per DID, client-built operations of every type (several updates with different windows).
-func batchPool(r *hx.Rng, code uint64, nDIDs int, big bool) [][]*batchOp {
+// suffixCode (optional): the algorithm the protocol computes DID suffixes with (its first one) when it differs from the
+// algorithm the controller uses for delta hashes, reveal values and commitments.
+func batchPool(r *hx.Rng, code uint64, nDIDs int, big bool, suffixCode ...uint64) [][]*batchOp {
+	sfxCode := code
+	if len(suffixCode) > 0 {
+		sfxCode = suffixCode[0]
+	}
 	var pool [][]*batchOp
 	for d := 0; d < nDIDs; d++ {
 		ids := newIDPool(r)
@@ -65,7 +71,7 @@ func batchPool(r *hx.Rng, code uint64, nDIDs int, big bool) [][]*batchOp {
 		if err != nil {
 			panic(err)
 		}
-		cd.Suffix = suffixOf(cr.Req, code)
+		cd.Suffix = suffixOf(cr.Req, sfxCode)
 		mark := func(s string) string { return fmt.Sprintf("did%d-%s", d, s) }
 		ops := []*batchOp{{ID: mark("create"), Type: "create", Suffix: cd.Suffix, Req: cr.Req, Origin: origin}}
 		// independent branches: each op built from the keys in force after the create (none is applied, the handler only parses)
@@ -325,7 +331,7 @@ func countTypes(b []*batchOp) int {
 }
 
 func checkC13(c *hx.Ctx) {
-	c.Rule("batches of client-built operations through the REAL OperationHandler, gzip and OperationProvider over an in-memory CAS: all 4+16+64+256 type sequences of length <= 4 on distinct DIDs (exhaustive), the same sequences with repeated suffixes at every position, deactivate-only / update-only / single-operation / maximum-size batches, operations of different DIDs that reveal the same key, batches with operations expired on a virtual clock (also all-expired), random mixes up to MaxOperationCount; every operation carries a unique marker; oracle: one operation per distinct suffix (the first queued) reads back with same type, suffix, JSON-equal request and embedded anchor origin, ordered create, recover, update, deactivate; anchor count = operations read back; included + deferred + expired = queued exactly once; every batch is also read back through the transaction's alternate sources by a node holding no file, and re-created with the k-th CAS write failing (once / permanently) for every k: error or an anchor string that reads back as the batch; non-trivial = batch with >= 2 operations; distinct = distinct batches")
+	c.Rule("batches of client-built operations through the REAL OperationHandler, gzip and OperationProvider over an in-memory CAS: all 4+16+64+256 type sequences of length <= 4 on distinct DIDs (exhaustive), the same sequences with repeated suffixes at every position, deactivate-only / update-only / single-operation / maximum-size batches, operations of different DIDs that reveal the same key, a protocol whose suffix algorithm (its first) differs from the algorithm the controllers hash with, batches with operations expired on a virtual clock (also all-expired), random mixes up to MaxOperationCount; every operation carries a unique marker; oracle: one operation per distinct suffix (the first queued) reads back with same type, suffix, JSON-equal request and embedded anchor origin, ordered create, recover, update, deactivate; anchor count = operations read back; included + deferred + expired = queued exactly once; every batch is also read back through the transaction's alternate sources by a node holding no file, and re-created with the k-th CAS write failing (once / permanently) for every k: error or an anchor string that reads back as the batch; non-trivial = batch with >= 2 operations; distinct = distinct batches")
 	rng := c.Rng("pool")
 	type env struct {
 		p    protocol.Protocol
@@ -335,6 +341,10 @@ func checkC13(c *hx.Ctx) {
 	for _, code := range []uint64{ref.SHA256, ref.SHA512} {
 		envs = append(envs, env{c13Proto(code), batchPool(rng.Split(fmt.Sprint(code)), code, 12, false)})
 	}
+	// a protocol enabling two algorithms, its first one (which names DID suffixes) not being the one the controllers use
+	mixed := c13Proto(ref.SHA512)
+	mixed.MultihashAlgorithms = []uint{ref.SHA512, ref.SHA256}
+	mixedEnv := env{mixed, batchPool(rng.Split("mixed"), ref.SHA256, 12, false, ref.SHA512)}
 	bigEnv := env{c13Proto(ref.SHA256), batchPool(rng.Split("big"), ref.SHA256, 12, true)}
 	pick := func(e env, d int, typ string, k int) *batchOp {
 		var m []*batchOp
@@ -396,6 +406,16 @@ func checkC13(c *hx.Ctx) {
 			b3 = append(b3, pick(e, i, t, 2-(i%2))) // update variant 2 / deactivate variant 1 expire
 		}
 		jobs = append(jobs, job{e, b3, 450, "expiring-at-450"}, job{e, b3, 600, "expiring-at-600"})
+	}
+	for si, sq := range seqs {
+		if si%5 != 0 {
+			continue
+		}
+		var b []*batchOp
+		for i, t := range sq {
+			b = append(b, pick(mixedEnv, i, t, 0))
+		}
+		jobs = append(jobs, job{mixedEnv, b, 100, "suffix-algorithm-differs-from-controller-algorithm"})
 	}
 	// special shapes
 	for _, e := range envs {
@@ -523,7 +543,7 @@ func checkC13(c *hx.Ctx) {
 	c.Sample(3, map[string]interface{}{"batch": ids(jobs[len(seqs)/2].batch), "tag": jobs[len(seqs)/2].tag})
 	c.Sample(3, map[string]interface{}{"batch": ids(jobs[len(jobs)-1].batch), "tag": "random"})
 	c.Set("exhaustive_type_sequences", len(seqs))
-	for _, t := range []string{"types-distinct-dids", "repeated-suffix", "expiring-at-450", "expiring-at-600", "update-only-max", "deactivate-only-max", "single", "maximum-size", "tight-file-limits", "random", "six-operations-one-suffix", "operations-sharing-a-key"} {
+	for _, t := range []string{"types-distinct-dids", "repeated-suffix", "expiring-at-450", "expiring-at-600", "update-only-max", "deactivate-only-max", "single", "maximum-size", "tight-file-limits", "random", "six-operations-one-suffix", "operations-sharing-a-key", "suffix-algorithm-differs-from-controller-algorithm"} {
 		c.Floor("ok:"+t, 1)
 	}
 	c.Floor("all_expired_batches", 1)
